@@ -1,0 +1,48 @@
+//go:build verif
+
+package ipfscluster
+
+// Contracts for the govc verifier (/verif). Comment-only: with the build tag
+// off this file is not part of the package, with it on it adds no code.
+
+//@ spec func validFactors(mn int, mx int) bool = (mn == -1 && mx == -1) || (0 < mn && mn <= mx)
+
+//@ func containsPeer
+//@   property C03
+//@   ensures res <==> in(peer, elems(list))
+//@   loop 1 (range list)
+//@     invariant forall j int :: 0 <= j && j < idx1 ==> list[j] != peer
+
+//@ func minInt
+//@   property C03
+//@   ensures (x < y ==> res == x) && (!(x < y) ==> res == y)
+
+//@ func isReplicationFactorValid
+//@   property C03 C04
+//@   ensures err == nil <==> validFactors(rplMin, rplMax)
+
+//@ func allocationError
+//@   property C03
+//@   ensures err != nil
+//@   modifies nothing
+
+//@ interface PinAllocator.Allocate(ctx, c, current, candidates, priority)
+//@   property C03
+//@   requires disjoint(dom(candidates), dom(priority))
+//@   ensures err == nil ==> distinct(res) && sub(elems(res), union(dom(candidates), dom(priority)))
+//@   ensures err == nil ==> forall i int, j int :: 0 <= i && i < j && j < len(res) && in(res[j], dom(priority)) ==> in(res[i], dom(priority))
+//@   modifies nothing
+
+//@ func (c *Cluster) obtainAllocations
+//@   property C03
+//@   requires 0 < rplMin && rplMin <= rplMax
+//@   requires disjoint(dom(currentValidMetrics), dom(candidatesMetrics)) && disjoint(dom(currentValidMetrics), dom(priorityMetrics)) && disjoint(dom(candidatesMetrics), dom(priorityMetrics))
+//@   loop 1 (range currentValidMetrics)
+//@     invariant elems(validAllocations) == seen1 && len(validAllocations) == cnt1 && distinct(validAllocations) && !isnil(validAllocations)
+//@   ensures err == nil && res == nil ==> rplMin <= len(currentValidMetrics) && len(currentValidMetrics) <= rplMax
+//@   ensures err == nil && res != nil ==> distinct(res) && rplMin <= len(res) && len(res) <= rplMax
+//@   ensures err == nil && res != nil ==> sub(elems(res), union(dom(currentValidMetrics), dom(candidatesMetrics), dom(priorityMetrics)))
+//@   ensures err == nil && res != nil && len(currentValidMetrics) <= rplMax ==> sub(dom(currentValidMetrics), elems(res))
+//@   ensures err == nil && res != nil && len(currentValidMetrics) > rplMax ==> sub(elems(res), dom(currentValidMetrics)) && len(res) == rplMax
+//@   ensures err != nil ==> res == nil
+//@   modifies nothing
